@@ -266,6 +266,28 @@ func zero(t types.Type) value {
 
 // slice returns x[lo:hi:max].  Any of lo, hi and max may be nil.
 func slice(ex *exec, x, lo, hi, max value) value {
+	if b, ok := x.(*blob); ok {
+		// Marshal output / archive bytes: only the whole-slice forms b[:], b[:len(b)],
+		// b[:len(b):len(b)], b[0:...] are modelled (the same bytes)
+		full := func(v value) bool {
+			if v == nil {
+				return true
+			}
+			sv, isSym := v.(sym)
+			return isSym && b.lenVar != nil && sv.t == b.lenVar
+		}
+		zero := func(v value) bool {
+			if v == nil {
+				return true
+			}
+			n, isInt := v.(int)
+			return isInt && n == 0
+		}
+		if zero(lo) && full(hi) && full(max) {
+			return b
+		}
+		ex.abandon("slicing of an XML blob / archive other than the whole slice")
+	}
 	if sx, ok := x.(sym); ok {
 		return ex.strSlice(sx, lo, hi)
 	}
